@@ -258,6 +258,26 @@ def sink(ctx, loop_fn=None):
             ctx.ob('SINK', '%s/%s#%d' % (fl, meth, sum(1 for bb2, t2 in b.calls() if bb2 < bb and (t2.get('callee') or '') == c)), ok, short_loc(t.get('span')),
                    'Write::%s on %s: %s' % (meth, recv_ty, why))
     ctx.floor('SINK', 'sink-write call sites', n, 6)
+    # one place hands blocks to the sink: the flush of the pending block.  A second writer (a "fast path" that sends
+    # bytes around the block buffer) bypasses the pending block - values already accepted are then written after later
+    # ones - and the failed-flush / quiescent-point discipline judged on the one reviewed site
+    if loop_fn is not None:
+        # (the loop may sit behind wrappers of its own module: callers are taken outside that module)
+        lmod = fn_label(loop_fn).rsplit('::', 1)[0]
+        targets, callers, grew = {loop_fn.id}, [], True
+        while grew:
+            grew, callers = False, []
+            for b in f.body_list:
+                for bb, t in b.calls():
+                    if (t.get('resolved') or t.get('callee')) in targets and not b.is_cleanup(bb) and b.id not in targets:
+                        if fn_label(b).split('::{closure')[0].rsplit('::', 1)[0] == lmod:
+                            targets.add(b.id)
+                            grew = True
+                        else:
+                            callers.append((fn_label(b), short_loc(t.get('span'))))
+        names = sorted({short_fn(c[0]) for c in callers})
+        ctx.ob('SINK', 'one-block-writer', len(callers) == 1 and names == ['Writer::flush_finished_block'], short_loc(loop_fn.span),
+               'call sites of the retry loop %s: %s (reviewed: one, in Writer::flush_finished_block, after the pending-block and failed-flush tests)' % (short_fn(fn_label(loop_fn)), names or 'none'))
     # the sink is never put behind a buffering adaptor: BufWriter / LineWriter flush in Drop and swallow the error, so a
     # failed or short write would be reported as success
     wrapped = []
